@@ -616,3 +616,89 @@ Proof.
   destruct b as [|y0 b]; [destruct i; discriminate|]. destruct c as [|z0 c]; [destruct i; discriminate|].
   destruct i as [|i]; cbn in *; [congruence | apply IH; assumption].
 Qed.
+
+(* ---- fix_perturbations with a scaler: the whole vector ------------------------------------------- *)
+Lemma efinite_to_opt s o b : efinite (eb_to_opt s o b) = efinite b.
+Proof. destruct b; reflexivity. Qed.
+Lemma map3_length {A B C D} (f : A -> B -> C -> D) a b c n :
+  length a = n -> length b = n -> length c = n -> length (map3 f a b c) = n.
+Proof.
+  revert b c n. induction a as [|x a IH]; intros b c n Ha Hb Hc; cbn in *; [exact Ha|].
+  destruct b as [|y b]; [subst n; discriminate|]. destruct c as [|z c]; [subst n; discriminate|].
+  destruct n as [|n]; [discriminate|]. cbn in *. f_equal. apply IH; lia.
+Qed.
+Lemma magnitudes_vec_s_nth pts lbs ubs ss ms i p l u s m :
+  nth_error pts i = Some p -> nth_error lbs i = Some l -> nth_error ubs i = Some u ->
+  nth_error ss i = Some s -> nth_error ms i = Some m ->
+  nth_error (magnitudes_vec_s pts lbs ubs ss ms) i = Some (magnitude_1s p l u s m).
+Proof.
+  revert lbs ubs ss ms i. induction pts as [|p0 pts IH]; intros lbs ubs ss ms i Hp Hl Hu Hs Hm;
+    [destruct i; discriminate|].
+  destruct lbs as [|l0 lbs]; [destruct i; discriminate|].
+  destruct ubs as [|u0 ubs]; [destruct i; discriminate|].
+  destruct ss as [|s0 ss]; [destruct i; discriminate|].
+  destruct ms as [|m0 ms]; [destruct i; discriminate|].
+  destruct i as [|i]; cbn in *.
+  - injection Hp as <-. injection Hl as <-. injection Hu as <-. injection Hs as <-. injection Hm as <-. reflexivity.
+  - apply IH; assumption.
+Qed.
+
+(* accepted configuration under a scaler: entry i is the optimizer-domain magnitude of variable i (which
+   [magnitude_scaled_user] relates to the user's units), and RELATIVE variables have finite bounds *)
+Theorem magnitudes_scaled_ok pts lbs ubs ss os ms mags i l u s o :
+  magnitudes_scaled pts lbs ubs ss os ms = MagOk mags ->
+  length ubs = length lbs -> length ss = length lbs -> length os = length lbs ->
+  nth_error lbs i = Some l -> nth_error ubs i = Some u -> nth_error ss i = Some s -> nth_error os i = Some o ->
+  exists p m, bnth pts i = Some p /\ bnth ms i = Some m /\
+    nth_error mags i = Some (magnitude_1s p (eb_to_opt s o l) (eb_to_opt s o u) s m) /\
+    (Z.eqb p pt_relative = true -> efinite l && efinite u = true).
+Proof.
+  unfold magnitudes_scaled. intros H Hlen Hss Hos Hl Hu Hs Ho.
+  destruct (broadcast (length lbs) ms) as [ms'|] eqn:Em; [|discriminate].
+  destruct (broadcast (length lbs) pts) as [pts'|] eqn:Ep; [|discriminate].
+  destruct (rel_finite pts' (bounds_to_opt ss os lbs) (bounds_to_opt ss os ubs)) eqn:Er; [|discriminate].
+  injection H as <-.
+  assert (Hi : (i < length lbs)%nat) by (apply nth_error_Some; congruence).
+  destruct (broadcast_nth _ _ _ i Em Hi) as [Hm1 Hm2].
+  destruct (broadcast_nth _ _ _ i Ep Hi) as [Hp1 Hp2].
+  destruct (nth_error pts' i) as [p|] eqn:Epi; [|apply nth_error_None in Epi; lia].
+  destruct (nth_error ms' i) as [m|] eqn:Emi; [|apply nth_error_None in Emi; lia].
+  assert (Hl' : nth_error (bounds_to_opt ss os lbs) i = Some (eb_to_opt s o l)) by (apply map3_nth; assumption).
+  assert (Hu' : nth_error (bounds_to_opt ss os ubs) i = Some (eb_to_opt s o u)) by (apply map3_nth; assumption).
+  exists p, m. unfold bnth. split; [symmetry; exact Hp1|]. split; [symmetry; exact Hm1|].
+  split; [apply magnitudes_vec_s_nth; assumption|].
+  intros Hp. apply Z.eqb_eq in Hp. subst p.
+  destruct (rel_finite_nth _ _ _ _ _ _ Er Epi Hl' Hu') as [Hfl Hfu].
+  rewrite efinite_to_opt in Hfl, Hfu. rewrite Hfl, Hfu. reflexivity.
+Qed.
+
+(* rejected (ValueError) exactly when some RELATIVE variable has an infinite bound -- whatever the scaler *)
+Theorem magnitudes_scaled_infinite_iff pts lbs ubs ss os ms : let n := length lbs in
+  length pts = n -> length ms = n -> length ubs = n -> length ss = n -> length os = n -> n <> 1%nat ->
+  (magnitudes_scaled pts lbs ubs ss os ms = MagInfinite <->
+   exists i l u, nth_error pts i = Some pt_relative /\ nth_error lbs i = Some l /\ nth_error ubs i = Some u /\
+                 (efinite l && efinite u = false)).
+Proof.
+  intros n Hp Hm Hu Hs Ho Hn. unfold magnitudes_scaled. fold n.
+  rewrite (broadcast_full _ ms Hm Hn), (broadcast_full _ pts Hp Hn).
+  assert (Hnth : forall bs i b, length bs = n -> nth_error bs i = Some b ->
+                 exists s o, nth_error (bounds_to_opt ss os bs) i = Some (eb_to_opt s o b)).
+  { intros bs i b Hb Hi. assert (Hlt : (i < n)%nat) by (rewrite <- Hb; apply nth_error_Some; congruence).
+    destruct (nth_error ss i) as [s|] eqn:Es; [|apply nth_error_None in Es; lia].
+    destruct (nth_error os i) as [o|] eqn:Eo; [|apply nth_error_None in Eo; lia].
+    exists s, o. apply map3_nth; assumption. }
+  destruct (rel_finite pts (bounds_to_opt ss os lbs) (bounds_to_opt ss os ubs)) eqn:Er.
+  - split; [discriminate|]. intros [i [l [u [H1 [H2 [H3 H4]]]]]].
+    destruct (Hnth lbs i l eq_refl H2) as [s [o Hl']]. destruct (Hnth ubs i u Hu H3) as [s' [o' Hu']].
+    destruct (rel_finite_nth _ _ _ _ _ _ Er H1 Hl' Hu') as [Ha Hb]. rewrite efinite_to_opt in Ha, Hb.
+    rewrite Ha, Hb in H4. discriminate.
+  - split; [|reflexivity]. intros _. destruct (rel_finite_false _ _ _ Er) as [i [l' [u' [H1 [H2 [H3 H4]]]]]].
+    assert (Hlt : (i < n)%nat).
+    { rewrite <- (map3_length eb_to_opt ss os lbs n Hs Ho eq_refl). apply nth_error_Some.
+      unfold bounds_to_opt in H2. congruence. }
+    destruct (nth_error lbs i) as [l|] eqn:El; [|apply nth_error_None in El; fold n in El; lia].
+    destruct (nth_error ubs i) as [u|] eqn:Eu; [|apply nth_error_None in Eu; lia].
+    destruct (Hnth lbs i l eq_refl El) as [s [o Hl']]. destruct (Hnth ubs i u Hu Eu) as [s' [o' Hu']].
+    rewrite Hl' in H2. rewrite Hu' in H3. injection H2 as <-. injection H3 as <-.
+    rewrite !efinite_to_opt in H4. exists i, l, u. auto.
+Qed.
